@@ -264,3 +264,11 @@ func mozVerify(blob []byte, cert *x509.Certificate, detached []byte) (accepted b
 	p.Certificates = []*x509.Certificate{cert}
 	return p.Verify() == nil, true
 }
+
+func mustCert(der []byte) *x509.Certificate {
+	c, err := x509.ParseCertificate(der)
+	if err != nil {
+		panic(err)
+	}
+	return c
+}
